@@ -281,6 +281,15 @@ def run_events(events):
     return m
 
 
+def ann_shape(x):
+    """a value / contained type in the shape of a parameter annotation: a class name, or ["Array", element shape]"""
+    if isinstance(x, type):
+        return x.__name__
+    if isinstance(x, Array):
+        return ["Array", ann_shape(x.contained_type)]
+    return type(x).__name__
+
+
 def describe(v):
     """Classification of a register's real content for the generator."""
     if v is DEAD:
@@ -299,7 +308,7 @@ def describe(v):
             e = ct.__name__
         else:
             e = type(ct).__name__
-        return ("array", v.size, e)
+        return ("array", v.size, e, ann_shape(ct))
     if isinstance(v, Tuple):
         return ("tuple",)
     if isinstance(v, NTuple):
